@@ -161,6 +161,12 @@ func init() {
 			}
 			return tuple{out, iface{}}, true
 		},
+		// profiler labels have no effect on the program
+		"runtime/pprof.WithLabels":         func(fr *frame, a []value) (value, bool) { return a[0], true },
+		"runtime/pprof.SetGoroutineLabels": func(fr *frame, a []value) (value, bool) { return nil, true },
+		"runtime/pprof.Labels": func(fr *frame, a []value) (value, bool) {
+			return zero(fr.fn.Signature.Results().At(0).Type()), true
+		},
 		// the process environment is empty unless a check redirects these to a model
 		"os.Getenv": func(fr *frame, a []value) (value, bool) {
 			fr.i.run.stubs["os.Getenv (empty environment)"]++
